@@ -391,18 +391,36 @@ def analyze(ctx, want):
     ex, paths = run_fn(ac, F, Model(), inline=GETTERS)
     env = {"rel_matches": ("matched",)}
     n_cmp = 0
+    n_stop = 0
     for p in paths:
+        consumed = [e for e in p.events if e[0] == "cursor-next"]
+        stop = [(c, o) for c, o in p.conds if c[0] == "binop" and c[1] in ("Ge", "Gt", "Lt", "Le") and S.mentions(c, lambda x: x[0] == "sym" and x[1].startswith("ci_item@"))]
         for c, o in p.conds:
             if c[0] == "binop" and c[1] in ("Ge", "Gt", "Lt", "Le", "Eq", "Ne"):
                 ka, kb = kind(c[2], env), kind(c[3], env)
                 n_cmp += 1
                 ob("C11.d", "advance_char_indices_beyond_match:comparison-kinds", ka == kb and ka is not None,
                    "compares %s (%s) with %s (%s)" % (S.vstr(c[2]), kname(ka), S.vstr(c[3]), kname(kb)), ac.loc())
-                # stop condition: end of the consumed char >= end of the match
-                if p.end[0] == "return" and o is True and "len_utf8" in S.vstr(c):
-                    la, ca = S.linear(c[2])
-                    ok = c[1] == "Ge" and any(a_[0] == "app" and a_[1] == "len_utf8" for a_ in la) and "span" in S.vstr(c[3]) and "end" in S.vstr(c[3])
-                    ob("C11.d", "advance_char_indices_beyond_match:stops-at-match-end", ok, "stops when %s" % S.vstr(c), ac.loc())
+        if consumed and not stop and p.end[0] in ("return", "cut"):
+            got_item = any(e[0] == "write" and e[4][0] == "field" and e[4][1][0] == "sym" and e[4][1][1].startswith("ci_item@") for e in p.events)
+            if got_item:
+                ob("C11.d", "advance_char_indices_beyond_match:stop-test-after-each-char", False, "a consumed char is not compared with the end of the match", ac.loc())
+        for c, o in stop[-1:]:
+            # the test must be: end of the consumed char (index + len_utf8(c)) >= end of the match
+            n_stop += 1
+            la, ca = S.linear(c[2])
+            lb, cb = S.linear(c[3])
+            item0 = [a_ for a_ in la if a_[0] == "field" and a_[2] == "0" and a_[1][0] == "sym" and a_[1][1].startswith("ci_item@")]
+            lens = [a_ for a_ in la if a_[0] == "app" and a_[1] == "len_utf8" and a_[2][0][0] == "field" and a_[2][0][2] == "1" and item0 and a_[2][0][1] == item0[0][1]]
+            ok_l = len(la) == 2 and len(item0) == 1 and len(lens) == 1 and ca == 0 and all(v == 1 for v in la.values())
+            ok_r = len(lb) == 1 and cb == 0 and S.fstr(list(lb)[0]) == "matched.span.end"
+            ok_op = c[1] == "Ge"
+            exits = p.end[0] == "return"
+            ok_dir = (o is True) == exits
+            ob("C11.d", "advance_char_indices_beyond_match:stops-at-match-end", ok_l and ok_r and ok_op and ok_dir,
+               "loop %s under (%s) = %s; it must stop exactly when index + len_utf8(c) >= matched.span.end" % ("exits" if exits else "continues", S.fstr(c), o), ac.loc())
+    if "C11.d" in want:
+        ctx.floor("C11.d", "stop tests in advance_char_indices_beyond_match", n_stop, 2)
     if "C11.d" in want:
         ctx.floor("C11.d", "comparisons in advance_char_indices_beyond_match", n_cmp, 1)
 
